@@ -34,6 +34,7 @@ def _quiet_unraisable(unraisable):
 sys.unraisablehook = _quiet_unraisable
 MODES = ('idle', 'forever', 'race', 'own', 'closed')
 FORMS = ('coro', 'task', 'future')
+DONE_FORMS = ('donefut', 'donetask')
 
 
 class HExc(Exception):
@@ -268,6 +269,31 @@ def make_awaitable(rt, L, i, script, form, vals, excs):
             raise excs[i]
         return vals[i]
 
+    if form in DONE_FORMS:
+        # the awaitable is a future / task of L that is ALREADY completed before ensure_aw is called (with its
+        # scripted value or stored exception); completed outside the observed run, so no start/fin entries.
+        # Used in closed mode only (the model ignores the awaitable there): a closed target still raises RuntimeError.
+        if form == 'donefut':
+            f = L.create_future()
+            if kind in RAISE_KINDS:
+                f.set_exception(excs[i])
+            else:
+                f.set_result(vals[i])
+            return f, None
+
+        async def quick():
+            if kind in RAISE_KINDS:
+                raise excs[i]
+            return vals[i]
+        t = L.create_task(quick())
+        was, rt.frozen = rt.frozen, True
+        try:
+            L.run_until_complete(t)
+        except HARNESS_EXC:
+            pass
+        finally:
+            rt.frozen = was
+        return t, None
     if form == 'coro':
         return co(), None
     if form == 'task':
